@@ -146,7 +146,18 @@ pub fn lex(source: &str, source_filename: &str) -> Vec<LexedToken>
 	{
 		// Syntax should remain such that each line can be lexed independently.
 		lex_line(line, source_filename, offset, 1 + i, &mut tokens);
-		offset += line.chars().count() + 1;
+		// The line terminator stripped by `lines()` is either "\n" or "\r\n".
+		let end_of_line =
+			(line.as_ptr() as usize - source.as_ptr() as usize) + line.len();
+		let terminator_len = if source[end_of_line..].starts_with("\r\n")
+		{
+			2
+		}
+		else
+		{
+			1
+		};
+		offset += line.chars().count() + terminator_len;
 	}
 	if source.len() == 0
 	{
